@@ -379,7 +379,47 @@ def corpus_stream(ctx):
                 ctx.disagree(f"C14:intersect:{kind}:3d:{why}", desc, [p.tolist()], [np.round(np.asarray(v.array), 6).tolist() for v in r[1]], replay=[desc])
 
 
+def grid_stream(ctx, n):
+    """a circle / sphere against grids of 64 or more secants (one and two collection axes: the batched branches of the numeric
+    kernels), and the dual of a grid of circles: every returned point lies on the quadric and on its line, the two known
+    points are found, dual.dual is the grid again"""
+    import geometer as g
+    from geometer.curve import QuadricCollection
+    rng = ctx.rng
+    PY = [(3, 4), (4, 3), (-3, 4), (5, 0), (0, -5), (-4, -3), (4, -3), (0, 5), (-5, 0), (3, -4), (-4, 3), (-3, -4)]
+    for k in range(n):
+        shape = rng.choice([(64,), (8, 8), (4, 16), (70,)])
+        size = int(np.prod(shape))
+        cx, cy = rng.randint(-3, 3), rng.randint(-3, 3)
+        Q = g.Circle(g.Point(float(cx), float(cy)), 5.0)
+        pairs = [rng.sample(PY, 2) for _ in range(size)]
+        P1 = np.array([[cx + a[0], cy + a[1], 1.0] for a, b in pairs]).reshape(shape + (3,))
+        P2 = np.array([[cx + b[0], cy + b[1], 1.0] for a, b in pairs]).reshape(shape + (3,))
+        L = g.LineCollection(g.PointCollection(P1), g.PointCollection(P2))
+        desc = f"circle centre=({cx},{cy}) r=5 against a {shape} grid of secants through lattice points"
+        ctx.case(desc)
+        ctx.count(f"grid:{len(shape)}axes")
+        r = call_impl(lambda: Q.intersect(L))
+        if r[0] != "ok" or len(r[1]) != 2:
+            ctx.disagree(f"C14:grid:error", desc, "two point collections", r[1:3], replay=[desc])
+            continue
+        A, B = (np.asarray(x.array).reshape(size, 3) for x in r[1])
+        f1, f2 = P1.reshape(size, 3), P2.reshape(size, 3)
+        bad = [i for i in range(size)
+               if not ((proj_close_nn(A[i], f1[i], 1e-7) and proj_close_nn(B[i], f2[i], 1e-7)) or (proj_close_nn(A[i], f2[i], 1e-7) and proj_close_nn(B[i], f1[i], 1e-7)))]
+        if bad:
+            ctx.disagree(f"C14:grid:secants:{len(shape)}axes", desc, [f1[bad[0]].tolist(), f2[bad[0]].tolist()], [np.round(A[bad[0]], 6).tolist(), np.round(B[bad[0]], 6).tolist()], replay=[desc])
+            continue
+        # dual of a grid of circles
+        mats = np.array([np.asarray(g.Circle(g.Point(float(rng.randint(-3, 3)), float(rng.randint(-3, 3))), float(rng.randint(1, 4))).array) for _ in range(size)]).reshape(shape + (3, 3))
+        QC = QuadricCollection(mats)
+        d = call_impl(lambda: QC.dual.dual)
+        if d[0] != "ok" or not all(proj_close_nn(x, y, 1e-8) for x, y in zip(np.asarray(d[1].array).reshape(size, 3, 3), mats.reshape(size, 3, 3))):
+            ctx.disagree(f"C14:grid:dual-dual:{len(shape)}axes", desc + " (grid of circles)", "the grid itself", d[1:3] if d[0] != "ok" else "differs", replay=[desc])
+
+
 def correspondence(ctx):
+    grid_stream(ctx, ctx.budget(6, 60))
     corpus_stream(ctx)
     intersect_stream(ctx, ctx.budget(300, 5000))
     special_stream(ctx, ctx.budget(100, 1500))
